@@ -78,6 +78,9 @@ def body_catalogue(case, note):
     for ws in (True, False):
         t2 = f("c", _add_ws=ws, id="i")
         check(t2.add_ws is ws and t2.name == name, f"{label}.{name}(_add_ws={ws}) not honoured")
+    from hv.history import failed_operations
+
+    failed_operations(key=name)
     for bad in (None, 0, 1, "True", [], 1.0):
         try:
             f(_add_ws=bad)
@@ -165,6 +168,7 @@ def arg_strategy():
             ),
             "kw": st.one_of(st.lists(pair.map(list), max_size=3, unique_by=lambda p: p[0]), st.lists(pair.map(list), max_size=3, unique_by=lambda p: p[0]), colliding),
             "ws": st.sampled_from([None, None, True, False]),
+            "prior_failed": st.sampled_from([False, False, True]),
         }
     )
 
@@ -187,7 +191,19 @@ def body_args(case, note):
         return out, {k: attr_value(v) for k, v in case["kw"]}
 
     n = 0
+    prior_failed = bool(case.get("prior_failed"))
+    if prior_failed:
+        from hv.history import failed_operations
+
+        failed_operations(key=case["args"])
     for label, name, f in functions():
+        if prior_failed:
+            # ... and a failed call of this very function (a valid child before the unsupported one)
+            for badcall in (lambda: f("stale child", object()), lambda: f("stale child", title=object()), lambda: f({"class": "stale"}, _add_ws="no")):
+                try:
+                    badcall()
+                except TypeError:
+                    pass
         a1, k1 = mk_args()
         a2, k2 = mk_args()
         default = name not in inline
@@ -216,6 +232,7 @@ def body_args(case, note):
     tagkids = [p for k, p in case["args"] if k == "c" and p["k"] == "tag"]
     note(has_child and has_attr, "explicit-ws" if case["ws"] is not None else "default-ws", "functions:%d" % n,
          "block-element-child" if any(p["ws"] for p in tagkids) else "",
+         "after-failed-calls" if prior_failed else "",
          "lone-container-argument" if len(case["args"]) == 1 and case["args"][0][0] == "c" and case["args"][0][1]["k"] == "list" else "",
          "colliding-keywords-without-dict" if len({gen.norm_attr_name(k) for k, _ in case["kw"]}) < len(case["kw"]) and not any(k == "d" for k, _ in case["args"]) else "",
          "title-or-desc-child-not-first" if any(k == "c" and p["k"] == "tag" and p["name"] in ("title", "desc") and i > 0 and any(k2 == "c" for k2, _ in case["args"][:i]) for i, (k, p) in enumerate(case["args"])) else "",
@@ -237,5 +254,5 @@ RULE = (
 
 CLAUSES = [
     Clause("catalogue", body_catalogue, source="enum", enum=enum_catalogue, shards_quick=2, shards_thorough=4, required=("mod:tags", "mod:svg", "mod:top", "inline", "block"), rule="every function"),
-    Clause("args", body_args, strategy=arg_strategy, quick=300, thorough=1500, shards_quick=4, required=("explicit-ws", "default-ws", "block-element-child", "title/desc/caption-child-not-first", "title-or-desc-child-not-first", "lone-container-argument", "colliding-keywords-without-dict"), rule="see RULE"),
+    Clause("args", body_args, strategy=arg_strategy, quick=300, thorough=1500, shards_quick=4, required=("explicit-ws", "default-ws", "block-element-child", "title/desc/caption-child-not-first", "title-or-desc-child-not-first", "lone-container-argument", "colliding-keywords-without-dict", "after-failed-calls"), rule="see RULE"),
 ]
